@@ -129,10 +129,17 @@ struct XCore
   int shutdown_calls = 0;
   const Case *c     = nullptr;
 
+  // a failing call may be one call or the state of the backend from that call on (arg == 1)
+  static bool persistent(const Fault &f)
+  {
+    return f.arg == 1 &&
+           (f.kind == F_EXPORT_FAIL || f.kind == F_FLUSH_FAIL || f.kind == F_SHUTDOWN_FAIL);
+  }
   const Fault *find(int k1, int k2, int k3, int call) const
   {
     for (const Fault &f : c->faults)
-      if (f.target == idx && f.at == call && (f.kind == k1 || f.kind == k2 || f.kind == k3))
+      if (f.target == idx && (f.kind == k1 || f.kind == k2 || f.kind == k3) &&
+          (f.at == call || (persistent(f) && call > f.at)))
         return &f;
     return nullptr;
   }
@@ -1569,6 +1576,10 @@ void generate(const std::string &prop, Rng &wl, Rng &fl, Case &c)
         f.kind = F_SHUTDOWN_SLOW;
         f.arg  = slow_long;
       }
+      // an unreachable backend: the call keeps failing from then on (a third of the failures)
+      if ((f.kind == F_EXPORT_FAIL || f.kind == F_FLUSH_FAIL || f.kind == F_SHUTDOWN_FAIL) &&
+          fl.chance(0.33))
+        f.arg = 1;
       if (stratum == "phase" && (f.kind == F_FLUSH_FAIL))
         continue;  // keeps "flush completed" literal in the phase stratum
       c.faults.push_back(f);
@@ -1618,6 +1629,9 @@ std::string describe_fault(const Case &, const Fault &f)
 {
   static const char *names[] = {"?",          "export_fail", "export_slow",   "export_stall",
                                 "flush_fail", "flush_slow",  "shutdown_fail", "shutdown_slow"};
+  if (XCore::persistent(f))
+    return fmt("%s at call %d of exporter %d and at every later call", names[f.kind & 7], f.at,
+               f.target);
   return fmt("%s at call %d of exporter %d (arg %.3f ms)", names[f.kind & 7], f.at, f.target,
              f.arg / 1e6);
 }
